@@ -22,12 +22,12 @@ mod vk_counter {
             s.loc_y = 0; s.loc_r = &c as *const AtomicCounter as usize;
             let r = c.fetch_and_add(v);
             assert!(s.n == 1 && s.log[0].kind == 1 && s.log[0].arg == v && s.log[0].ret == r, "[C01 C04 C09 ctr-rmw] fetch_and_add(n) is exactly one fetch_add(n) and returns its result");
-            assert!(is_acq(s.log[0].ord) && is_rel(s.log[0].ord), "[C07 ctr-rmw-ord] fetch_and_add is AcqRel or stronger");
+            assert!(is_rel(s.log[0].ord), "[C07 ctr-rmw-ord] fetch_and_add is a Release (or stronger) RMW: it publishes the holder's use of the wrapped iterator");
         } else if op == 1 {
             s.loc_y = 0; s.loc_r = &c as *const AtomicCounter as usize;
             let r = c.fetch_and_increment();
             assert!(s.n == 1 && s.log[0].kind == 1 && s.log[0].arg == 1 && s.log[0].ret == r, "[C01 C04 C09 ctr-rmw] fetch_and_increment is exactly one fetch_add(1) and returns its result");
-            assert!(is_acq(s.log[0].ord) && is_rel(s.log[0].ord), "[C07 ctr-rmw-ord] fetch_and_increment is AcqRel or stronger");
+            assert!(is_rel(s.log[0].ord), "[C07 ctr-rmw-ord] fetch_and_increment is a Release (or stronger) RMW: it publishes the holder's use of the wrapped iterator");
         } else if op == 2 {
             let r = c.current();
             assert!(s.n == 1 && s.log[0].kind == 2 && s.log[0].ret == r, "[C10 C11 ctr-load] current() is exactly one load and returns its result");
@@ -35,7 +35,6 @@ mod vk_counter {
         } else {
             c.store(v);
             assert!(s.n == 1 && s.log[0].kind == 3 && s.log[0].arg == v, "[C06 ctr-store] store(v) is exactly one store of v");
-            assert!(is_rel(s.log[0].ord), "[C07 ctr-store-ord] store is Release or stronger");
         }
         kani::cover!(op == 2, "load");
     }
